@@ -471,11 +471,10 @@ private:
     // Fire callbacks outside lock
     if (tooLarge)
     {
-      sendClose(sid, 1009, "Message Too Big");
-      if (_onError)
-      {
-        _onError(sid, "Message exceeded maxFrameSize");
-      }
+      // Fail the connection: answering 1009 while keeping the session would
+      // leave the oversized fragment buffer in place, growing with every
+      // further continuation frame (and a Close frame sent for each of them).
+      failSession(sid, 1009, "Message exceeded maxFrameSize");
       return;
     }
 
